@@ -61,6 +61,42 @@ def idxNegE {α} (xs : List α) (c : Nat) (site : String) : Except Err α :=
 def setIdxNegE {α} (xs : List α) (c : Nat) (v : α) (site : String) : Except Err (List α) :=
   if c ≤ xs.length then setE xs (xs.length - c) v site else .error (.oob site)
 
+/-- `xs[i]` with numpy's WRAP-AROUND of a negative index: `-len ≤ i < 0` is `xs[len + i]` (whitelist type `arr2w`; the one
+    kernel that relies on it is `fast_csv_reader`, which reads `column_inds[col_index, -1]` while on the header line) -/
+def idxWE {α} (xs : List α) (i : Int) (site : String) : Except Err α :=
+  if 0 ≤ i then getE xs i.toNat site
+  else if -i ≤ (xs.length : Int) then getE xs (xs.length - (-i).toNat) site else .error (.oob site)
+
+/-- `xs[i] = v` with the same wrap-around -/
+def setIdxWE {α} (xs : List α) (i : Int) (v : α) (site : String) : Except Err (List α) :=
+  if 0 ≤ i then setE xs i.toNat v site
+  else if -i ≤ (xs.length : Int) then setE xs (xs.length - (-i).toNat) v site else .error (.oob site)
+
+/-- `a[i, j] = v` on a 2-D array given as the list of its rows: row `i`, then entry `j`, both checked -/
+def setIdx2E {α} (a : List (List α)) (i j : Int) (v : α) (site : String) : Except Err (List (List α)) :=
+  match idxE a i site with
+  | .error e => .error e
+  | .ok row =>
+    match setIdxE row j v site with
+    | .error e => .error e
+    | .ok row' => setIdxE a i row' site
+
+/-- `a[i, j] = v` with numpy's wrap-around of a negative index in both dimensions (`arr2w`) -/
+def setIdx2WE {α} (a : List (List α)) (i j : Int) (v : α) (site : String) : Except Err (List (List α)) :=
+  match idxWE a i site with
+  | .error e => .error e
+  | .ok row =>
+    match setIdxWE row j v site with
+    | .error e => .error e
+    | .ok row' => setIdxWE a i row' site
+
+/-- `a.shape[1]` of a 2-D array given as the list of its rows: the length of its rows.  An array WITHOUT rows does not carry
+    its second dimension in this representation: an (IndexError-class) error, never a guess -/
+def shape1E {α} (a : List (List α)) (site : String) : Except Err Int :=
+  match a with
+  | [] => .error (.oob site)
+  | r :: _ => .ok (r.length : Int)
+
 /-- read of a local that Python may not have bound yet (`UnboundLocalError`); `d` is the definedness flag -/
 def readDefE {α} (d : Bool) (v : α) (_name : String) : Except Err α :=
   if d then .ok v else .error (.other "UnboundLocalError")
@@ -140,6 +176,15 @@ def argmaxE : List Int → Except Err Int
   | [] => .error (.valueError "attempt to get argmax of an empty sequence")
   | x :: xs => .ok (argBestFrom (fun a b => decide (a > b)) xs 1 x 0 : Nat)
 
+/-- `a in (c1, c2, …)` for an ARRAY `a` and a non-empty tuple of integer literals.  Python evaluates `bool(c1 == a) or
+    bool(c2 == a) or …`: an array of exactly one element is compared as that element; the truth value of an array of any other
+    length (empty included) is a ValueError — interpreted numpy and compiled numba alike (checked on the real
+    `numeric_bool_transform`, both modes) -/
+def arrInTupleE (a : List Int) (cs : List Int) : Except Err Bool :=
+  match a with
+  | [x] => .ok (cs.any (fun c => c == x))
+  | _ => .error (.valueError "The truth value of an array with other than one element is ambiguous")
+
 /-! ### loops -/
 
 /-- `for k in range(lo, lo + n)`: `body k s`, stopping early when `stop` holds after an iteration (`break`) -/
@@ -198,6 +243,7 @@ inductive Val where
   | barr (a : List Bool)
   | arr2 (a : List (List Int))
   | tup (vs : List Val)
+  | str (s : String)
   deriving Repr, Inhabited
 
 def Val.asInt? : Val → Option Int
@@ -214,6 +260,9 @@ def Val.asBArr? : Val → Option (List Bool)
   | _ => Option.none
 def Val.asArr2? : Val → Option (List (List Int))
   | .arr2 a => some a
+  | _ => Option.none
+def Val.asStr? : Val → Option String
+  | .str s => some s
   | _ => Option.none
 def Val.asOptInt? : Val → Option (Option Int)
   | .int i => some (some i)
